@@ -35,6 +35,8 @@ class Contract:
     setup: object = None  # callable(E, st)
     trusted: list = field(default_factory=list)
     min_paths: int = 1
+    terminates_role: str = ""  # if set: undeclared `while` loops get a termination obligation of this role
+    base_exceptions: bool = False  # opaque effects may also raise KeyboardInterrupt/SystemExit
     no_raise_role: str = "safety"  # role of the `no-raise` obligations when allow_raise is False
 
     @property
@@ -169,6 +171,44 @@ def _has_quantifier(e):
     return False
 
 
+def _candidate(pc, goal, scope, timeout_s, len_consts):
+    """model of (pc and not goal) with every sequence length <= scope, range-guarded quantifiers
+    expanded and injection axioms ground-instantiated; None if none is found"""
+    s2 = z3.Solver()
+    s2.set("timeout", int(min(timeout_s, 10.0) * 1000))
+    ground = []
+    for a in _smt2(pc, goal).assertions():
+        if z3.is_quantifier(a) and a.var_sort(0) != z3.IntSort():
+            continue  # background injection axioms: instantiated on ground terms below
+        ground.append(expand_quantifiers(a, scope))
+    for a in ground:
+        s2.add(a)
+    seen = set()
+
+    def inst(t):
+        if t.get_id() in seen:
+            return
+        seen.add(t.get_id())
+        if z3.is_app(t):
+            nm = t.decl().name()
+            if nm == "u_of_str":
+                s2.add(EN.str_U(t) == t.arg(0))
+            elif nm == "u_of_int":
+                s2.add(EN.int_U(t) == t.arg(0))
+            elif nm == "Path":
+                s2.add(EN.unPath_U(t) == t.arg(0))
+            for c in t.children():
+                inst(c)
+
+    for a in ground:
+        inst(a)
+    for n in len_consts:
+        s2.add(n <= scope)
+    if s2.check() == z3.sat:
+        return s2.model()
+    return None
+
+
 def discharge(pc, goal, timeout_s=10.0, len_consts=()):
     """-> (status, backend, time_s, model|None)   status: discharged|refuted|unknown"""
     t0 = time.time()
@@ -193,6 +233,13 @@ def discharge(pc, goal, timeout_s=10.0, len_consts=()):
         s2 = _ground_solver(pc, None, timeout_s)
         if s2 is not None and s2.check() == z3.sat:
             return "refuted", "z3(ground axioms)", time.time() - t0, s2.model()
+        # quantified path condition: fall through to the small-scope candidate search below
+        # (a candidate only counts if it replays natively)
+        goal = z3.BoolVal(False)
+        for scope in (1, 2, 3):
+            cand = _candidate(pc, goal, scope, timeout_s, len_consts)
+            if cand is not None:
+                return "unknown", f"z3 (candidate path witness in scope<={scope})", time.time() - t0, cand
         return "unknown", "z3", time.time() - t0, None
     goal = lift(goal)
     # fast lane: E-matching only (no MBQI) — decides most valid VCs in milliseconds
@@ -237,38 +284,9 @@ def discharge(pc, goal, timeout_s=10.0, len_consts=()):
     # counterexample in a small scope with the range-guarded quantifiers expanded.  The
     # candidate is NOT a verdict: it only counts if it replays natively on the real code.
     for scope in (1, 2, 3):
-        s2 = z3.Solver()
-        s2.set("timeout", int(min(timeout_s, 10.0) * 1000))
-        ground = []
-        for a in _smt2(pc, goal).assertions():
-            if z3.is_quantifier(a) and a.var_sort(0) != z3.IntSort():
-                continue  # background injection axioms: instantiated on ground terms below
-            ground.append(expand_quantifiers(a, scope))
-        for a in ground:
-            s2.add(a)
-        seen = set()
-
-        def inst(t):
-            if t.get_id() in seen:
-                return
-            seen.add(t.get_id())
-            if z3.is_app(t):
-                nm = t.decl().name()
-                if nm == "u_of_str":
-                    s2.add(EN.str_U(t) == t.arg(0))
-                elif nm == "u_of_int":
-                    s2.add(EN.int_U(t) == t.arg(0))
-                elif nm == "Path":
-                    s2.add(EN.unPath_U(t) == t.arg(0))
-                for c in t.children():
-                    inst(c)
-
-        for a in ground:
-            inst(a)
-        for n in len_consts:
-            s2.add(n <= scope)
-        if s2.check() == z3.sat:
-            return "unknown", f"z3+cvc5 (candidate counterexample in scope<={scope})", time.time() - t0, s2.model()
+        cand = _candidate(pc, goal, scope, timeout_s, len_consts)
+        if cand is not None:
+            return "unknown", f"z3+cvc5 (candidate counterexample in scope<={scope})", time.time() - t0, cand
     return "unknown", "z3+cvc5", time.time() - t0, None
 
 
@@ -317,6 +335,8 @@ def verify(ctx, contract: Contract, timeout_s=None):
                 raise Unsupported(f"path ends with {out.kind}")
             for name, role, fn_ in contract.exits:
                 E.obligations.append(EN.Obligation(f"exit.{name}", role, list(s.pc), fn_(E, s, out), "/".join(s.decisions), out.kind))
+        if not contract.allow_raise and not contract.raises and not any(o.kind == "raise" for _, o in paths):
+            _record(ctx, res, fn, "no-raise.no-exceptional-exit-path", contract.no_raise_role, "discharged", "path-enumeration", 0.0, f"none of the {len(paths)} explored paths ends in an exception")
         if len(paths) < contract.min_paths:
             raise Unsupported(f"only {len(paths)} paths explored, contract expects >= {contract.min_paths}")
         _record(ctx, res, fn, "vacuity.paths-explored", "auxiliary", "discharged", "path-enumeration", 0.0, f"{len(paths)} feasible paths, {n_ret} normal exits")
